@@ -102,6 +102,18 @@ def run(chk, replay=None):
                 if not same_evaluation(res, again) or numpy.array(fc.data, dtype=float).tobytes() != before:
                     bad.append(('public test re-evaluated on the same objects', repr(again if isinstance(again, Raised) else float(again.observed_statistic)),
                                 repr(float(res.observed_statistic))))
+                # ... and after the forecast was re-scaled (by a power of two: the scaled rates are exact): the value must be
+                # that of the rates the forecast holds now
+                for factor in (0.5, 4.0):
+                    fc.scale(factor)
+                    half = {i: v * Fraction(factor) for i, v in rates.items()}
+                    exp2 = xr.evaluate(case['stat'], half)
+                    res2 = call(kind, fc, cat, 2, 3)
+                    chk.count()
+                    if isinstance(res2, Raised) or not xr.close(res2.observed_statistic, exp2, atol=1e-11 + extra * max(1.0, factor)):
+                        bad.append(('public test after the forecast was re-scaled by %s' % factor,
+                                    repr(res2 if isinstance(res2, Raised) else float(res2.observed_statistic)), str(exp2)))
+                    fc.scale(1.0)
         return bad
 
     res = chk.tlc('BinaryBrier', 'MC_BinaryBrier.cfg', timeout=900)
